@@ -241,6 +241,20 @@ def _images(ctx):
         for _ in range(4):
             if s2['o'] == 'call' and call_matches(s2['term'], 'IntoIterator::into_iter', 'IntoIterator>::into_iter') and s2['term']['args']:
                 s2 = t.origin(s2['term']['args'][0])
+            elif s2['o'] == 'call' and call_matches(s2['term'], 'Clone::clone', 'Clone>::clone') and s2['term']['args'] and \
+                    'RangeInclusive' in str(s2['term']['args'][0].get('ty', '')):
+                # `let r = -s..=s; iproduct!(r.clone(), r)`: a clone of a range that nothing has advanced is that range
+                src_o = t.origin(s2['term']['args'][0])
+                src_l = src_o.get('l')
+                advanced = False
+                for bb_ in n.b.blocks:
+                    for st_ in bb_['stmts']:
+                        if st_['s'] == 'assign' and st_['rv'].get('r') == 'ref' and st_['rv'].get('mut') and \
+                                st_['rv']['place'].get('l') == src_l and src_l is not None:
+                            advanced = True
+                if advanced:
+                    break
+                s2 = src_o
         okr = False
         why = 'index loop %d does not range over -shells..=shells' % k
         if s2['o'] == 'call' and call_matches(s2['term'], 'RangeInclusive::<Idx>::new'):
